@@ -688,9 +688,10 @@ class Sandbox:
                                                report=self.report, priority=priority)
         try:
             self.exception.feedback = self.feedback
-        except Exception:
+        except (Exception, SystemExit):
             # Student-defined exceptions may not accept new attributes
-            # (__slots__, read-only properties, a __setattr__ of their own)
+            # (__slots__, read-only properties, a __setattr__ of their own -
+            # which is their code, and may also end with sys.exit())
             pass
         return False
 
